@@ -311,6 +311,15 @@ func (d *Director) Connect(a *Actor, payout, override string, legacy bool) error
 	if legacy {
 		node.NodeVersion, node.VipnodeVersion = "", ""
 	}
+	if a.IsHost && err == nil {
+		// the statement fixes what the stored address parses back to, not its spelling (an IPv6 zone must be
+		// escaped inside a URI): the model takes the stored spelling when it means the expected address
+		if su := d.storedURI(a.ID); su != wantURI {
+			if hp, _ := expectedURI(override, a.ID, a.Addr); uriMeans(su, a.ID, hp) {
+				node.URI = su
+			}
+		}
+	}
 	w.Ref.SetNode(node)
 	if a.IsHost {
 		w.Reg[a.ID] = a.Conn
@@ -375,6 +384,17 @@ func (d *Director) checkURI(a *Actor, override, op string) {
 	if h != wh || p != wp {
 		d.bad("C19", "host_uri", "stored address differs from the supplied / connection address ("+class+")", "%s: stored %q -> %s:%s, want %s:%s", op, uri, h, p, wh, wp)
 	}
+}
+
+// uriMeans: uri parses (agent-side parser) to the given identity and host:port.
+func uriMeans(uri, id, hostport string) bool {
+	pu, err := ethnode.ParseNodeURI(uri)
+	if err != nil || pu.ID() != id {
+		return false
+	}
+	h, p, err := net.SplitHostPort((*url.URL)(pu).Host)
+	wh, wp, err2 := net.SplitHostPort(hostport)
+	return err == nil && err2 == nil && h == wh && p == wp
 }
 
 func uriClass(override, addr string) string {
